@@ -44,7 +44,7 @@ def budget(tier: str) -> int:
 
 def generate(rs: int, tier: str, index: int) -> dict:
     ch = core.Chooser(rs, "plan")
-    kind = ch.weighted([(4, "lead"), (3, "proxy"), (3, "extreme"), (2, "decompose"), (3, "set_dimensions"), (1, "const")])
+    kind = ch.weighted([(4, "lead"), (3, "proxy"), (3, "extreme"), (2, "decompose"), (3, "set_dimensions"), (1, "const"), (2, "queries")])
     names = model.gen_names(ch.sub("n"), 1, 4 if kind == "set_dimensions" else 3)
     shape = ch.choice([(), (2,), (3,), (4,), (2, 2), (2, 3), (1, 2, 2)])
     kindc = ch.weighted([(3, "int"), (2, "float")])
@@ -249,6 +249,36 @@ class Runner:
             elif not model.canon_equal(want, have):
                 self.violate("set-dimensions", "set_dimensions", sid, f"[{tag}] dims={dims}: got {model.canon_text(have)[:200]} expected {model.canon_text(want)[:200]}", {"all_dropped": not want})
             return model.poly_fingerprint(res) + "|" + ",".join(res.names)
+        if kind == "queries":
+            # isconstant / tonumpy / todict against the term dictionaries
+            is_const = all(all(sum(k) == 0 for k in el) for el in els)
+            got_const = bool(numpoly.isconstant(p))
+            if got_const != is_const:
+                self.violate("isconstant", "isconstant", sid, f"[{tag}] isconstant={got_const} for elements {els[:3]}")
+            try:
+                arr = numpoly.tonumpy(p)
+                raised = False
+            except numpoly.FeatureNotSupported:
+                raised = True
+            if raised == is_const:
+                self.violate("tonumpy", "tonumpy", sid, f"[{tag}] tonumpy {'raised' if raised else 'returned'} for a {'constant' if is_const else 'non-constant'} polynomial")
+            elif not raised:
+                want_vals = [el.get((0,) * nv, 0) for el in els]
+                if numpy.asarray(arr).shape != shape or numpy.asarray(arr).ravel().tolist() != want_vals:
+                    self.violate("tonumpy", "tonumpy", sid, f"[{tag}] got {numpy.asarray(arr).tolist()} expected {want_vals}")
+            dct = p.todict()
+            rebuilt: List[Dict[tuple, Any]] = [dict() for _ in els]
+            for key, coef in dct.items():
+                flat = numpy.asarray(coef).ravel()
+                if len(key) != nv or len(flat) != len(els):
+                    self.violate("todict", "todict", sid, f"[{tag}] key {key} / coefficient shape {numpy.shape(coef)}")
+                    return "x"
+                for i, v in enumerate(flat.tolist()):
+                    if v != 0:
+                        rebuilt[i][tuple(int(x) for x in key)] = v
+            if any(not self._el_equal(a, b) for a, b in zip(rebuilt, els)):
+                self.violate("todict", "todict", sid, f"[{tag}] todict() does not describe the polynomial")
+            return f"{is_const}"
         if kind == "const":
             fn = step["fn"]
             vals = numpy.asarray(p.coefficients[0]) if p.size else numpy.zeros(shape)
